@@ -149,7 +149,13 @@ def expected_sets(tree, hists, pats):
 
 def oracle_c03(rep, scn, replay, obs, root, report):
     for i, (st, o) in enumerate(zip(scn["steps"], obs)):
-        if st["op"] not in ("verify", "diff", "create") or st.get("sf") or st.get("dr"):
+        if st["op"] not in ("verify", "diff", "create") or st.get("sf"):
+            continue
+        if st.get("dr"):
+            # rename detection may take entries off the missing list (C17); what it may never do is end without an exit code
+            _count(rep, "c03.create-dr")
+            if o["outcome"][0] == "abort":
+                report("create-dr-aborts", i, "an exit code (0 / 10 / 11)", o["outcome"], "create -dr ended with an internal error instead of reporting the state of the tree")
             continue
         croot = st.get("root", "") or ""
         hists = _gens_below(replay.hists[i], croot)
